@@ -1360,6 +1360,8 @@ class XMLSchemaBase(XsdValidator, ElementPathMixin[Union[SchemaType, XsdElement]
 
                     # Clear identity constraints counters
                     for k, e in enumerate(xsd_ancestors[k:], start=k):
+                        if k >= len(ancestors):
+                            break  # more matches for a step, e.g. a group referred twice
                         if not isinstance(e, XsdElement):
                             continue  # an ancestor matched by a wildcard has no identities
                         for identity in e.identities:
